@@ -13,7 +13,7 @@ from sim.engines import parser_rows
 PROPERTY = 'C07'
 ENGINE = 'cv-fault'
 BUDGET_S = {'quick': 170, 'thorough': 1500}
-CASE_TIMEOUT_S = 600
+CASE_TIMEOUT_S = 1200
 STUBS = ['pathos ParallelPool -> SimPool', 'cli.common.signal -> FakeSignal (never fires in this engine)']
 PROBES = ['corpus_case', 'step_cap_discarded', 'fault_entry', 'fault_mid_unit', 'fault_gather', 'multi_fault', 'all_units_of_tx', 'early_unit_of_rich_tx', 'every_unit',
           'threads_gt_1', 'fusion_unit_failed', 'circ_unit_failed', 'main_unit_failed', 'absorbed',
